@@ -127,7 +127,11 @@ pub struct WorldC {
     pub timeout_s: u64,
     pub next_id: u64,
     pub warm_queue: VecDeque<Op>,
+    /// an in-memory client hosted by the same RenetServer (a listen server's own player); it has no netcode session
+    pub local: Option<RenetClient>,
 }
+
+pub const LOCAL_ID: u64 = 1 << 40;
 
 pub fn make_world(cfg: &Cfg) -> Box<dyn World> {
     Box::new(WorldC::new(cfg))
@@ -224,7 +228,11 @@ impl WorldC {
             timeout_s: cfg.get("timeout").max(1),
             next_id: 1,
             warm_queue: VecDeque::new(),
+            local: None,
         };
+        if cfg.get("local") == 1 {
+            w.local = Some(w.server.new_local_client(LOCAL_ID));
+        }
         for j in 0..n {
             w.new_client(j);
         }
@@ -313,6 +321,7 @@ pub fn gen_cfg(family: &str, rng: &mut Rng) -> Cfg {
     cfg.set("sockerr", *rng.pick(&[0u64, 0, 3]));
     cfg.set("appdisc", *rng.pick(&[0u64, 1, 1]));
     cfg.set("warm", *rng.pick(&[0u64, 6, 6]));
+    cfg.set("local", *rng.pick(&[0u64, 0, 1]));
     let _ = BTreeSet::<u8>::new();
     cfg
 }
